@@ -1,4 +1,6 @@
 pub mod gz;
 pub mod lp;
 pub mod mps;
+pub mod poly;
+pub mod qplib;
 pub mod msg;
